@@ -303,6 +303,8 @@ class OwnProfile(Profile):
                 if m.nodes[op["label"]].kind == "bi" and op["attr"] == "size" and cur < op["value"]:
                     pass
                 w.queue.extend([back] if r.random() < 0.6 else [dict(op, value=cur if r.random() < 0.5 else op["value"]), back])
+                if r.random() < 0.3:
+                    w.queue.append(dict(op))  # ... and forth again: an ODD number of changes of one key
                 return op
             kids = [l for l, n in m.nodes.items() if n.kind in ("bi", "cb", "db") and n.parent is not None]
             c = gen_own.pick(r, kids)
@@ -312,7 +314,30 @@ class OwnProfile(Profile):
             others = [l for l in m.by_kind(m.nodes[p0].kind) if l != p0]
             mid = gen_own.pick(r, others) if others and r.random() < 0.5 else None
             w.queue.append({"op": "setparent", "child": c, "parent": p0})
+            if r.random() < 0.3:
+                w.queue.append({"op": "setparent", "child": c, "parent": mid})  # away - back - away again
             return {"op": "setparent", "child": c, "parent": mid}
+        if fam == "visit":
+            # an indexed node joins another container, leaves it again, and is edited while it is
+            # a stranger there - all between two lookups of that container
+            m = w.m
+            kids = [l for l, n in m.nodes.items() if n.kind in ("bi", "cb", "db") and n.parent is not None]
+            c = gen_own.pick(r, kids)
+            if c is None:
+                return None
+            p0 = m.nodes[c].parent
+            hosts = [l for l in m.by_kind(m.nodes[p0].kind) if l != p0 and len(m.kids(l)) >= 2]
+            if not hosts:
+                return None
+            h = gen_own.pick(r, hosts)
+            ed = gen_own.gen_setattr(w, r, kinds=(m.nodes[c].kind,), attrs=INDEX_ATTRS)
+            if ed is None:
+                return None
+            ed = dict(ed, label=c)
+            if ed["attr"] not in (("address", "size") if m.nodes[c].kind == "bi" else ("offset", "size")):
+                return None
+            w.queue.extend([{"op": "setparent", "child": c, "parent": p0 if r.random() < 0.6 else None}, ed])
+            return {"op": "setparent", "child": c, "parent": h}
         if fam == "steal":
             # collection-side move of an indexed element: taken from a sibling owner that keeps
             # other members (its index sees only a removal it was never asked for), or a member
@@ -560,6 +585,7 @@ INDEX_BASE = {
     "attr_index": 6.0,
     "attr_roundtrip": 1.5,
     "steal": 1.5,
+    "visit": 1.0,
     "setattr": 0.5,
     "se": 2.0,
     "persist": 0.6,
